@@ -57,6 +57,10 @@ type c10Case struct {
 	MaxTTL       int         `json:"max_ttl"`
 	DestTTL      int         `json:"dest_ttl"`
 	SilentHop    int         `json:"silent_hop"`
+	// CancelAtMs > 0: the caller's context is cancelled this many (virtual) milliseconds into the
+	// run (icmp and sack take a context). Spec-on-implementation only: the wrapper model has no
+	// cancellation input.
+	CancelAtMs int `json:"cancel_at_ms,omitempty"`
 }
 
 func (c c10Case) planString() string {
@@ -71,7 +75,7 @@ func (c c10Case) planString() string {
 }
 
 func (c c10Case) key() string {
-	return fmt.Sprintf("%s|%s|%v|%v|%v|%d|%d|%d", c.Variant, c.planString(), c.MCP, c.Invalid, c.NotListening, c.MaxTTL, c.DestTTL, c.SilentHop)
+	return fmt.Sprintf("%s|%s|%v|%v|%v|%d|%d|%d|%d", c.Variant, c.planString(), c.MCP, c.Invalid, c.NotListening, c.MaxTTL, c.DestTTL, c.SilentHop, c.CancelAtMs)
 }
 
 type c10Meta struct {
@@ -183,6 +187,7 @@ type c10Obs struct {
 	FDAfter  int
 	FDLeaked []string
 	Elapsed  time.Duration
+	Canceled bool // the returned error wraps context.Canceled
 }
 
 var c10GoroutineRe = regexp.MustCompile(`^goroutine (\d+) `)
@@ -362,6 +367,14 @@ func c10Run(t *testing.T, c c10Case) c10Obs {
 		par := common.TracerouteParallelParams{TracerouteParams: common.TracerouteParams{
 			MinTTL: 1, MaxTTL: uint8(c.MaxTTL), TracerouteTimeout: 160*time.Millisecond + 17*time.Microsecond,
 			PollFrequency: 50*time.Millisecond + 13*time.Microsecond, SendDelay: 10 * time.Millisecond}}
+		ctx := context.Background()
+		if c.CancelAtMs > 0 {
+			cctx, cancel := context.WithCancel(ctx)
+			defer cancel()
+			tm := time.AfterFunc(time.Duration(c.CancelAtMs)*time.Millisecond+3*time.Microsecond, cancel)
+			defer tm.Stop()
+			ctx = cctx
+		}
 		before := c10Goroutines()
 		start := time.Now()
 		var run *result.TracerouteRun
@@ -378,7 +391,7 @@ func c10Run(t *testing.T, c c10Case) c10Obs {
 				if c.Invalid {
 					tg = netip.Addr{}
 				}
-				run, err = icmp.RunICMPTraceroute(context.Background(), icmp.Params{Target: tg, ParallelParams: par})
+				run, err = icmp.RunICMPTraceroute(ctx, icmp.Params{Target: tg, ParallelParams: par})
 			case "udp":
 				tg := net.IP(target.AsSlice())
 				if c.Invalid {
@@ -392,7 +405,7 @@ func c10Run(t *testing.T, c c10Case) c10Obs {
 				if c.Invalid {
 					tg = netip.AddrPortFrom(netip.MustParseAddr("fd00::9"), port)
 				}
-				run, err = sack.RunSackTraceroute(context.Background(), sack.Params{Target: tg, HandshakeTimeout: 500 * time.Millisecond,
+				run, err = sack.RunSackTraceroute(ctx, sack.Params{Target: tg, HandshakeTimeout: 500 * time.Millisecond,
 					FinTimeout: 500 * time.Millisecond, ParallelParams: par})
 			}
 		}()
@@ -414,6 +427,7 @@ func c10Run(t *testing.T, c c10Case) c10Obs {
 		}
 		if err != nil {
 			o.Inj = errors.Is(err, errWireInjected)
+			o.Canceled = errors.Is(err, context.Canceled)
 			o.Zero = strings.Contains(err.Error(), "returned 0 bytes") // small enum: the zero-length read error has no sentinel
 			var ns *sack.NotSupportedError
 			o.NS = errors.As(err, &ns)
@@ -741,6 +755,19 @@ func TestC10(t *testing.T) {
 			c.NotListening = true
 			runCase(c)
 		}
+		// the caller cancels while the run is in flight: during the sends, while the capture read is
+		// blocked between replies, and (silent destination) during the long listening phase
+		if v == "icmp" || v == "sack" {
+			for _, at := range []int{2, 7, 12, 18, 26, 45, 90, 140, 400} {
+				for _, silentDest := range []bool{false, true} {
+					c = c10Case{Variant: v, MaxTTL: 3, DestTTL: 3, CancelAtMs: at + rng.Intn(3)}
+					if silentDest {
+						c.SilentHop = 3
+					}
+					runCase(c)
+				}
+			}
+		}
 	}
 
 	lines := make([]string, 0, 2*len(items))
@@ -756,7 +783,10 @@ func TestC10(t *testing.T) {
 		modelLine, modelAns, specAns := lines[2*i], answers[2*i], answers[2*i+1]
 		hits := c10Hits(c, o)
 		sample := c10Sample(c, o, modelLine, modelAns)
-		nontrivial := len(hits) > 0 || (o.OK && len(c.Faults) == 0)
+		nontrivial := len(hits) > 0 || (o.OK && len(c.Faults) == 0) || (c.CancelAtMs > 0 && o.Elapsed >= time.Duration(c.CancelAtMs)*time.Millisecond)
+		if c.CancelAtMs > 0 {
+			rep.Hit("cancel:" + map[bool]string{true: "returned-after-cancel", false: "finished-before-cancel"}[o.Elapsed >= time.Duration(c.CancelAtMs)*time.Millisecond] + ":" + map[bool]string{true: "ok", false: "err"}[o.OK])
+		}
 		rep.Case(c.Variant, c.key(), nontrivial, sample)
 		rep.Hit("variant:" + c.Variant)
 		if o.OK {
@@ -788,12 +818,17 @@ func TestC10(t *testing.T) {
 		case len(o.Leaked) > 0:
 			bad = fmt.Sprintf("%d goroutine(s) started by the run outlive the call", len(o.Leaked))
 			sample["leaked_goroutines"] = o.Leaked
+		case c.CancelAtMs > 0 && o.Err != nil && !o.Canceled && len(hits) == 0:
+			bad = "the caller's cancellation made the run fail with an error that does not wrap context.Canceled: " + o.Err.Error()
 		case len(o.FDLeaked) > 0:
 			bad = fmt.Sprintf("file descriptors leaked: %d open before the run, still open 200 ms after it: %s", o.FDBefore, strings.Join(o.FDLeaked, " "))
 		}
 		if bad != "" {
 			rep.Violate(hx.Violation{Kind: "spec", What: bad, Sig: sig, Replay: sample})
 			continue
+		}
+		if c.CancelAtMs > 0 {
+			continue // no cancellation input in the wrapper model: judged by the property's own wording only
 		}
 		if modelAns == "bad-op" {
 			t.Fatalf("oracle rejected %q", modelLine)
